@@ -340,6 +340,15 @@ def lemma_root_min(heap, n, k):
              'implies(not result, self._size == old(self._size))',
              'implies(result, self._size == old(self._size) - 1)'],
     modifies=['Node.index', 'list[Node]', 'HeapBalancerSink._size', 'Channel.state', 'Channel.g_closes'],
+    ghost=[
+      {'after': 'i = node.index', 'do': ['g_c0 = node.channel.g_closes']},
+      # C04: a removed member is closed at once exactly when it is idle or already marked down;
+      # otherwise its last release closes it (see __Put)
+      {'before': 'return True', 'do': [
+        'prove(node.index == -1 and not inheap(self._heap, node), "removed-node-left-the-heap")',
+        'prove(implies(node.g_out == 0 or node.load >= 0, node.channel.g_closes == g_c0 + 1), "idle-or-down-member-closed-at-once")',
+        'prove(implies(node.g_out > 0 and node.load < 0, node.channel.g_closes == g_c0), "loaded-member-drains-first")']},
+    ],
     props=['C03', 'C04', 'C05'],
   ),
 }
